@@ -114,13 +114,13 @@ func (op *seriesFiltering) tagKeyNotFound(expr stmt.Expr) bool {
 	if _, ok := expr.(stmt.TagFilter); !ok {
 		return false
 	}
-	tagValues, ok := op.executeCtx.StorageExecuteCtx.TagFilterResult[expr.Rewrite()]
+	tagValues, ok := op.executeCtx.StorageExecuteCtx.TagFilterResult[flow.TagFilterKey(expr)]
 	return ok && tagValues.KeyNotFound
 }
 
 // getTagKeyID returns the tag key id by tag key
 func (op *seriesFiltering) getSeriesIDsByExpr(expr stmt.Expr) (tag.KeyID, *roaring.Bitmap, error) {
-	tagValues, ok := op.executeCtx.StorageExecuteCtx.TagFilterResult[expr.Rewrite()]
+	tagValues, ok := op.executeCtx.StorageExecuteCtx.TagFilterResult[flow.TagFilterKey(expr)]
 	if !ok {
 		return 0, nil, fmt.Errorf("%w, expr: %s", constants.ErrTagValueFilterResultNotFound, expr.Rewrite())
 	}
